@@ -160,11 +160,18 @@ func runC01(s *kernel.Sim) {
 	unix := func() int64 { return time.Now().UnixNano() }
 	groups := []string{"", "a", "b", "c"}
 	reqN := 0
+	noise := tp.Chance(1, 3)
+	s.Knobs["unrelated_headers"] = noise
 	issue := func(target int, grp string) (string, map[string]string) {
 		reqN++
 		h := map[string]string{}
 		if grp != "" {
 			h["x-grp"] = grp
+		}
+		// headers that take no part in the grouping, among them one whose name is the
+		// engine's word for "no group"
+		if noise && tp.Chance(1, 3) {
+			h[[]string{"default", "x-grp-2", "x-group"}[tp.Choose(3)]] = []string{"a", "b", "zz"}[tp.Choose(3)]
 		}
 		return fmt.Sprintf("t%d", reqN), h
 	}
